@@ -520,6 +520,8 @@ def lib_call(ev, full, args, kw, node, want):
     if full in ("np.abs", "np.fabs", "math.fabs"):
         x = real(0)
         return Val(z3.If(x >= 0, x, -x), REAL)
+    if full.startswith("np.random.") and getattr(u.contract, "rng", True) is False:
+        ev.need(z3.BoolVal(False), "rng-call-in-pure-function:" + full, node, props=tuple(u.contract.props))
     if full == "np.random.randint":
         A.add("np.random.randint(a,b) returns an arbitrary integer r with a <= r < b")
         if len(args) == 1:
